@@ -171,7 +171,7 @@ fn elf_law(buf: &mut Aligned<88>, entsize: u32, v: u32) -> Result<u64, String> {
 
 fn run(ctx: &mut Ctx) {
     let full = !ctx.dev_profile() && !ctx.quick();
-    ctx.bound("conversions", if full { "all 2^32 values: TagType/TagTypeId/MemoryAreaType/MemoryAreaTypeId round trips, named variants, commuting conversions, 12 equality directions against {v, v+1}" } else { "lattice h<<16|l (h all 65536 values, l in 0..=15 and 0xFFF0..=0xFFFF) in the quick tier and in the dev profile; all 2^32 values in the thorough release run" });
+    ctx.bound("conversions", if full { "all 2^32 values: TagType/TagTypeId/MemoryAreaType/MemoryAreaTypeId round trips, named variants, commuting conversions, 12 equality directions against {v, v+1}" } else { "lattice h<<16|l (h all 65536 values, l in 0..=31 and 0xFFE0..=0xFFFF) in the quick tier and in the dev profile; all 2^32 values in the thorough release run" });
     sweep_u32(ctx, "conversion laws", "c20/conversions", full, 24, conv_law);
     ctx.bound("equality", "lattice h<<16|l (2 097 152 values): 12 equality directions of v against v with each single bit flipped and against 0..=22 in both orders");
     sweep_u32(ctx, "equality laws", "c20/equality", false, 12 * (32 + 46), eq_lattice_law);
